@@ -13,6 +13,7 @@ theorem newEntry_eq (ot : OType) (st : St) : newEntry ot st = (.ok st.ents.lengt
 @[simp] theorem oids_addEntry (st : St) (ot) (s : Sd) : (addEntry st ot).oids s = st.oids s := by cases s <;> rfl
 @[simp] theorem paths_addEntry (st : St) (ot) (s : Sd) : (addEntry st ot).paths s = st.paths s := by cases s <;> rfl
 @[simp] theorem cs_addEntry (st : St) (ot) : (addEntry st ot).cs = st.cs := rfl
+@[simp] theorem moving_addEntry (st : St) (ot) : (addEntry st ot).moving = st.moving := rfl
 @[simp] theorem len_addEntry (st : St) (ot) : (addEntry st ot).ents.length = st.ents.length + 1 := by simp [addEntry]
 
 theorem side_addEntry (st : St) (ot : OType) (i : Nat) (s : Sd) :
@@ -67,108 +68,8 @@ theorem newEntry_tr (ot : OType) (P : St → Prop) (E : St → Prop) :
   rw [newEntry_eq]
   exact ⟨fun e he => by cases he; exact ⟨st, hp, rfl, rfl⟩, fun x hx => by cases hx⟩
 
-/-! ### what the plain attributes leave alone -/
-
-/-- only the side `(e, s)` differs -/
-def OnlySide (e : Nat) (s : Sd) (st st' : St) : Prop := ∀ i s', (i = e ∧ s' = s) ∨ st'.side i s' = st.side i s'
-
-theorem OnlySide.refl (e s) (st : St) : OnlySide e s st st := fun _ _ => Or.inr rfl
-theorem OnlySide.trans {e s st st' st''} (h1 : OnlySide e s st st') (h2 : OnlySide e s st' st'') : OnlySide e s st st'' := by
-  intro i s'
-  rcases h1 i s' with h | h
-  · exact Or.inl h
-  · rcases h2 i s' with h' | h'
-    · exact Or.inl h'
-    · exact Or.inr (h'.trans h)
-theorem onlySide_dirtyAdd (e s) (st : St) (j : Nat) : OnlySide e s st (st.dirtyAdd j) := fun _ _ => Or.inr rfl
-theorem onlySide_modSide (e s) (st : St) (f) : OnlySide e s st (st.modSide e s f) := by
-  intro i s'
-  by_cases hh : i = e ∧ s' = s
-  · exact Or.inl hh
-  · right; rw [side_modSide]; rw [if_neg (fun h => hh ⟨h.1, h.2.1⟩)]
-
-theorem OnlySide.dirtyAdd {e s st st'} (h : OnlySide e s st st') (j : Nat) : OnlySide e s st (st'.dirtyAdd j) := h.trans (onlySide_dirtyAdd e s st' j)
-theorem OnlySide.modSide {e s st st'} (h : OnlySide e s st st') (f) : OnlySide e s st (st'.modSide e s f) := h.trans (onlySide_modSide e s st' f)
-
-theorem sideSetBody_plain_only (setF : SetF) (cfg : Cfg) (e : Nat) (s : Sd) (fv : FV) (h : fv.plain = true) (st : St) :
-    OnlySide e s st (sideSetBody setF cfg e s fv st).2 := by
-  cases fv with
-  | path _ => cases h
-  | oid _ => cases h
-  | changed _ => cases h
-  | exists_ v =>
-    show OnlySide e s st (existsState st e s v)
-    unfold existsState; simp only
-    split
-    · exact (OnlySide.refl e s st).modSide _
-    · split
-      · exact (OnlySide.refl e s st).modSide _
-      · exact (((OnlySide.refl e s st).dirtyAdd _).modSide _).dirtyAdd _
-  | hash v =>
-    show OnlySide e s st (hashState st e s v)
-    unfold hashState; simp only
-    split
-    · exact (((((OnlySide.refl e s st).dirtyAdd _).modSide _).dirtyAdd _).modSide _).modSide _
-    · exact ((OnlySide.refl e s st).dirtyAdd _).modSide _
-  | mtime v => exact (((OnlySide.refl e s st).dirtyAdd _).modSide _).dirtyAdd _
-  | syncHash v => exact ((OnlySide.refl e s st).dirtyAdd _).modSide _
-  | syncPath v => exact ((OnlySide.refl e s st).dirtyAdd _).modSide _
-  | otype v => exact ((OnlySide.refl e s st).dirtyAdd _).modSide _
-  | size v => exact ((OnlySide.refl e s st).dirtyAdd _).modSide _
-
-/-- the guard `update_entry` needs at its path assignment, stated so that it survives the assignments before it:
-    no directory entry other than `e` lies strictly beneath `e`'s current path on side `s` -/
-def KidsLeaves (cfg : Cfg) (st : St) (s : Sd) (e : Nat) : Prop := ∀ pr, (st.side e s).path = some pr → Leaves cfg st s e pr
-
-theorem KidsLeaves.pathGuard {cfg st s e} (h : KidsLeaves cfg st s e) (v) : PathGuard cfg st e s (.path v) :=
-  fun _ _ pr hpr => h pr hpr
-
-theorem KidsLeaves.frame {cfg st st' s e} (h : KidsLeaves cfg st s e) (hf : Frame none st st') : KidsLeaves cfg st' s e := by
-  intro pr hpr
-  rw [(hf.2 e s).2 (by simp)] at hpr
-  exact (h pr hpr).frame hf (fun d hd => by cases hd)
-
-theorem KidsLeaves.only {cfg st st' s e} (h : KidsLeaves cfg st s e) (ho : OnlySide e s st st')
-    (hp : (st'.side e s).path = (st.side e s).path) : KidsLeaves cfg st' s e := by
-  intro pr hpr d hd hot
-  rw [hp] at hpr
-  have hds : st'.side d s = st.side d s := (ho d s).resolve_left (fun hh => hd hh.1)
-  rw [kidRel_congr cfg (st := st) (st' := st') s pr d (by rw [hds])]
-  exact h pr hpr d hd (by rw [← hds]; exact hot)
-
-theorem KidsLeaves.of_no_path {cfg st s e} (h : (st.side e s).path = none) : KidsLeaves cfg st s e := by
-  intro pr hpr; rw [h] at hpr; cases hpr
-
 /-! ### `update_entry` -/
 
-/-- what `update_entry` carries up to its path assignment -/
-def UG (cfg : Cfg) (s : Sd) (e : Nat) (L : Nat) (st : St) : Prop := InvL L st ∧ KidsLeaves cfg st s e
-
-theorem ug_plain (cfg : Cfg) (fuel : Nat) (e : Nat) (s : Sd) (fv : FV) (hpl : fv.plain = true) (L : Nat) :
-    Tr (UG cfg s e L) (sideSet cfg fuel e s fv) (fun _ => UG cfg s e L) Inv := by
-  apply Tr.intro_st; intro st1
-  apply Tr.with_pre (φ := UG cfg s e L st1) (fun st ⟨h0, h⟩ => h0 ▸ h)
-  rintro ⟨hil, hkl⟩
-  rintro st ⟨rfl, _⟩
-  cases fuel with
-  | zero => exact ⟨fun a ha => (by cases ha), fun x hx hne => by cases hx; exact absurd rfl hne⟩
-  | succ n =>
-    obtain ⟨st', heq, hrel⟩ := sideSetBody_plain (sideSet cfg n) cfg e s fv hpl st
-    have honly := sideSetBody_plain_only (sideSet cfg n) cfg e s fv hpl st
-    have hstep : sideSet cfg (n + 1) e s fv st = (.ok (), st') := heq
-    have heq2 : (sideSetBody (sideSet cfg n) cfg e s fv st).2 = st' := by rw [heq]
-    rw [heq2] at honly
-    rw [hstep]
-    exact ⟨fun _ _ => ⟨hil.plain hrel, hkl.only honly (hrel.fields e s).2.1⟩, fun x hx => by cases hx⟩
-
-theorem ug_oid (cfg : Cfg) (fuel : Nat) (e : Nat) (s : Sd) (v : Oid) (L : Nat) (hlt : e < L) :
-    Tr (UG cfg s e L) (sideSet cfg fuel e s (.oid v)) (fun _ => UG cfg s e L) Inv := by
-  apply Tr.intro_st; intro st1
-  apply Tr.with_pre (φ := UG cfg s e L st1) (fun st ⟨h0, h⟩ => h0 ▸ h)
-  rintro ⟨hil, hkl⟩
-  refine (sideSet_oid_tr cfg fuel noX e s v st1).conseq ?_ ?_ (fun _ h => h.elim)
-  · rintro st ⟨rfl, _⟩; exact ⟨rfl, hil.1.1, hil.1.2, hil.2 ▸ hlt⟩
-  · intro _ st' h; exact ⟨⟨⟨h.1, h.2.1⟩, h.2.2.1.trans hil.2⟩, hkl.frame h.2.2⟩
 
 theorem markIfChanged_tr (cfg : Cfg) (fuel : Nat) (e : Nat) (s : Sd) (a : UArgs) (L : Nat) (hlt : e < L) :
     Tr (InvL L) (markIfChanged cfg fuel e s a) (fun _ => InvL L) Inv := by
@@ -197,272 +98,58 @@ theorem notKnownCheck_tr (a : UArgs) (P : St → Prop) (hP : ∀ st, P st → In
     · exact Tr.throw (fun _ st h => hP st h)
   · exact Tr.pure (fun _ h => h)
 
-/-- the part of `update_entry` after the entry is chosen -/
+/-- state.py:978-1026 `update_entry` keeps the invariant (no guard) -/
 theorem updateEntry_tr (cfg : Cfg) (fuel : Nat) (ent : Nat) (s : Sd) (a : UArgs) (L : Nat) (hlt : ent < L) :
-    Tr (UG cfg s ent L) (updateEntry cfg fuel ent s a) (fun _ st' => Inv st') Inv := by
+    Tr (InvL L) (updateEntry cfg fuel ent s a) (fun _ st' => Inv st') Inv := by
   unfold updateEntry
-  refine Tr.bind (R := fun e st' => ∃ L', UG cfg s e L' st' ∧ e < L') ?_ (fun e => ?_)
+  refine Tr.bind (R := fun e st' => ∃ L', InvL L' st' ∧ e < L') ?_ (fun e => ?_)
   · -- replaceDiscarded
     unfold replaceDiscarded
     apply Tr.getSt_bind; intro st1
-    have hsame : Tr (fun st => st = st1 ∧ UG cfg s ent L st) (Pure.pure ent : M Nat)
-        (fun e st' => ∃ L', UG cfg s e L' st' ∧ e < L') Inv := Tr.pure (fun st ⟨_, h⟩ => ⟨L, h, hlt⟩)
+    have hsame : Tr (fun st => st = st1 ∧ InvL L st) (Pure.pure ent : M Nat)
+        (fun e st' => ∃ L', InvL L' st' ∧ e < L') Inv := Tr.pure (fun st ⟨_, h⟩ => ⟨L, h, hlt⟩)
     split
     · split
       · refine (newEntry_tr _ _ Inv).conseq (fun _ h => h) ?_ (fun _ h => h)
-        rintro e' st' ⟨st, ⟨_, hil, _⟩, rfl, rfl⟩
-        refine ⟨L + 1, ⟨⟨inv_addEntry hil.1 _, by simp [hil.2]⟩, KidsLeaves.of_no_path ?_⟩, by simp [hil.2]⟩
-        rw [side_addEntry]; simp
+        rintro e' st' ⟨st, ⟨_, hil⟩, rfl, rfl⟩
+        exact ⟨L + 1, ⟨inv_addEntry hil.1 _, by simp [hil.2.1], (by rw [moving_addEntry]; exact hil.2.2)⟩, by simp [hil.2.1]⟩
       · exact hsame
     · exact hsame
   · apply Tr.exists_pre; intro L'
     apply Tr.with_pre (φ := e < L') (fun st h => h.2)
     intro hlt'
-    have hUG : ∀ st, (UG cfg s e L' st ∧ e < L') → UG cfg s e L' st := fun st h => h.1
-    refine Tr.bind (R := fun _ => UG cfg s e L') ?_ (fun _ => ?_)
+    have step : ∀ fv (P : St → Prop), (∀ st, P st → InvL L' st) → Tr P (sideSet cfg fuel e s fv) (fun _ => InvL L') Inv :=
+      fun fv P hP => sideSet_keeps cfg fuel e s fv L' hlt' P hP
+    refine Tr.bind (R := fun _ => InvL L') ?_ (fun _ => ?_)
     · apply Tr.when
-      · intro _; exact (ug_oid cfg fuel e s _ L' hlt').pre hUG
+      · intro _; exact step _ _ (fun st h => h.1)
       · exact fun _ st h => h.1
     apply Tr.getSt_bind; intro st2
-    refine Tr.bind (R := fun _ => UG cfg s e L') ?_ (fun _ => ?_)
+    refine Tr.bind (R := fun _ => InvL L') ?_ (fun _ => ?_)
     · apply Tr.when
-      · intro _; exact (ug_plain cfg fuel e s _ rfl L').pre (fun st h => h.2)
+      · intro _; exact step _ _ (fun st h => h.2)
       · exact fun _ st h => h.2
-    refine Tr.bind (R := fun _ => UG cfg s e L') ?_ (fun _ => ?_)
+    refine Tr.bind (R := fun _ => InvL L') ?_ (fun _ => ?_)
     · apply Tr.when
-      · intro _; exact ug_plain cfg fuel e s _ rfl L'
+      · intro _; exact step _ _ (fun st h => h)
       · exact fun _ st h => h
-    refine Tr.bind (R := fun _ => UG cfg s e L') ?_ (fun _ => ?_)
+    refine Tr.bind (R := fun _ => InvL L') ?_ (fun _ => ?_)
     · apply Tr.when
-      · intro _; exact ug_plain cfg fuel e s _ rfl L'
+      · intro _; exact step _ _ (fun st h => h)
       · exact fun _ st h => h
-    refine Tr.bind (R := fun _ => UG cfg s e L') (notKnownCheck_tr a _ (fun st h => h.1.1)) (fun _ => ?_)
+    refine Tr.bind (R := fun _ => InvL L') (notKnownCheck_tr a _ (fun st h => h.1)) (fun _ => ?_)
     apply Tr.getSt_bind; intro st3
     refine Tr.bind (R := fun _ => InvL L') ?_ (fun _ => ?_)
     · apply Tr.when
-      · intro _
-        exact sideSet_keeps cfg fuel e s _ L' hlt' _ (fun st h => ⟨h.2.1, h.2.2.pathGuard _⟩)
-      · exact fun _ st h => h.2.1
+      · intro _; exact step _ _ (fun st h => h.2)
+      · exact fun _ st h => h.2
     apply Tr.getSt_bind; intro st4
     refine Tr.bind (R := fun _ => InvL L') ?_ (fun _ => ?_)
     · apply Tr.when
-      · intro _; exact sideSet_keeps cfg fuel e s _ L' hlt' _ (fun st h => ⟨h.2, trivial⟩)
+      · intro _; exact step _ _ (fun st h => h.2)
       · exact fun _ st h => h.2
     apply Tr.getSt_bind; intro st5
-    refine Tr.bind (R := fun _ => InvL L') (sideSet_keeps cfg fuel e s _ L' hlt' _ (fun st h => ⟨h.2, trivial⟩)) (fun _ => ?_)
+    refine Tr.bind (R := fun _ => InvL L') (step _ _ (fun st h => h.2)) (fun _ => ?_)
     exact (markIfChanged_tr cfg fuel e s a L' hlt').conseq (fun _ h => h) (fun _ _ h => h.1) (fun _ h => h)
-
-/-! ### `update` -/
-
-/-- the guard of `update`: on the event's side no directory entry lies strictly beneath another entry's path -/
-def FlatK (cfg : Cfg) (s : Sd) (st : St) : Prop := ∀ e, KidsLeaves cfg st s e
-
-theorem FlatK.frame {cfg s st st'} (h : FlatK cfg s st) (hf : Frame none st st') : FlatK cfg s st' := fun e => (h e).frame hf
-
-theorem flatK_addEntry {cfg s st} (h : FlatK cfg s st) (ot : OType) : FlatK cfg s (addEntry st ot) := by
-  intro e pr hpr d hd hot
-  have hs := side_addEntry st ot
-  by_cases hde : d = st.ents.length
-  · unfold kidRel; rw [hs, if_pos hde]
-  · have hdp : ((addEntry st ot).side d s).path = (st.side d s).path := by rw [hs, if_neg hde]
-    rw [kidRel_congr cfg (st := st) (st' := addEntry st ot) s pr d hdp]
-    by_cases hee : e = st.ents.length
-    · rw [hs, if_pos hee] at hpr; cases hpr
-    · rw [hs, if_neg hee] at hpr
-      exact h e pr hpr d hd (by rw [hs, if_neg hde] at hot; exact hot)
-
-theorem frame_ignoredState (st : St) (e : Nat) (v : Ign) : Frame none st (ignoredState st e v) := by
-  have hent : ∀ (st1 : St), Frame none st1 ((st1.dirtyAdd e).modEnt e (fun x => { x with ignored := v })) := by
-    intro st1
-    refine Frame.of_sides (by simp) (fun i s => ?_)
-    have : ((st1.dirtyAdd e).modEnt e (fun x => { x with ignored := v })).side i s = st1.side i s := by
-      unfold St.side; rw [ent_modEnt]
-      by_cases hh : i = e ∧ e < (st1.dirtyAdd e).ents.length
-      · rw [if_pos hh]; obtain ⟨a, _⟩ := hh; subst a; cases s <;> rfl
-      · rw [if_neg hh]; rfl
-    rw [this]; exact ⟨rfl, rfl⟩
-  unfold ignoredState
-  split
-  · exact Frame.refl _ _
-  · simp only
-    split
-    · refine Frame.trans ?_ (hent _)
-      exact ((chgRel_setChanged e .L .fls st).trans (chgRel_setChanged e .R .fls _)).trans (chgRel_csDiscard e _) |>.frame
-    · exact hent _
-
-/-- `update` merges the other side of the found entry into the prior entry (`ent[1-side] = _copy`, state.py:1155-1157) -/
-def mergeCopies (st : St) (s : Sd) (a : UArgs) (prior : Oid) : Bool :=
-  truthyS prior && prior != a.oid &&
-  match st.lookupOid s prior, st.lookupOid s a.oid with
-  | some pe, some en =>
-    !(st.ent pe).isDiscarded &&
-      ((st.ent en).isDiscarded || (!(st.ent en).isConflicted && (truthyH (st.side pe s).syncHash || !truthyH (st.side en s).syncHash))) &&
-      truthyS (st.side en s.other).oid && !truthyS (st.side pe s.other).oid
-  | _, _ => false
-
-/-- what `update` carries while it chooses the entry -/
-def CG (cfg : Cfg) (s : Sd) (L : Nat) (st : St) : Prop := InvL L st ∧ FlatK cfg s st
-
-theorem CG.ignored {cfg s L st} (h : CG cfg s L st) (e : Nat) (v : Ign) : CG cfg s L (ignoredState st e v) :=
-  ⟨ignoredState_inv st e v L h.1, h.2.frame (frame_ignoredState st e v)⟩
-
-theorem unignoreAll_tr (cfg : Cfg) (s : Sd) (L : Nat) : ∀ (l : List Nat) (acc : Option Nat),
-    (∀ i ∈ l, i < L) → (∀ i, acc = some i → i < L) →
-    Tr (CG cfg s L) (unignoreAll l acc) (fun r st' => CG cfg s L st' ∧ ∀ i, r = some i → i < L) Inv
-  | [], acc, _, hacc => Tr.pure (fun _ h => ⟨h, hacc⟩)
-  | i :: t, acc, hl, _ => by
-    unfold unignoreAll
-    apply Tr.getSt_bind; intro st1
-    refine Tr.bind (R := fun _ => CG cfg s L) (Tr.assert (fun st h _ => h.2.1.1) (fun st h _ => h.2)) (fun _ => ?_)
-    refine Tr.bind (R := fun _ => CG cfg s L) (Tr.modify (fun st h => h.ignored i .none)) (fun _ => ?_)
-    exact unignoreAll_tr cfg s L t (some i) (fun j hj => hl j (List.mem_cons_of_mem _ hj))
-      (fun j hj => by cases hj; exact hl i (List.mem_cons_self ..))
-
-theorem lookupPath_lt {st : St} (hi : Inv st) (s : Sd) (p : Option Path.Str) (stale : Bool) :
-    ∀ i ∈ st.lookupPath s p stale, i < st.ents.length := by
-  intro i hm
-  unfold St.lookupPath at hm
-  cases hb : AL.get (st.paths s) p with
-  | none => rw [hb] at hm; cases hm
-  | some b =>
-    rw [hb] at hm
-    have hm' := (List.mem_filter.1 hm).1
-    obtain ⟨x, hx, rfl⟩ := List.mem_map.1 hm'
-    exact (hi.1.pathKey s p b hb).2.2 x hx
-
-/-- the merge-copy condition at `mergePrior` time -/
-def NoCopy (s : Sd) (ent priorEnt : Option Nat) (st : St) : Prop :=
-  ∀ pe en, priorEnt = some pe → ent = some en →
-    (!(st.ent pe).isDiscarded && ((st.ent en).isDiscarded ||
-        (!(st.ent en).isConflicted && (truthyH (st.side pe s).syncHash || !truthyH (st.side en s).syncHash))) &&
-      truthyS (st.side en s.other).oid && !truthyS (st.side pe s.other).oid) = false
-
-theorem mergePrior_tr (cfg : Cfg) (fuel : Nat) (s : Sd) (a : UArgs) (ent priorEnt : Option Nat) (L : Nat)
-    (hent : ∀ i, ent = some i → i < L) (hpe : ∀ i, priorEnt = some i → i < L) :
-    Tr (fun st => CG cfg s L st ∧ NoCopy s ent priorEnt st) (mergePrior cfg fuel s a ent priorEnt)
-      (fun r st' => CG cfg s L st' ∧ ∀ i, r = some i → i < L) Inv := by
-  have hkeep : ∀ (r : Option Nat) (P : St → Prop), (∀ i, r = some i → i < L) → (∀ st, P st → CG cfg s L st) →
-      Tr P (Pure.pure r : M (Option Nat)) (fun r st' => CG cfg s L st' ∧ ∀ i, r = some i → i < L) Inv :=
-    fun r P hr hP => Tr.pure (fun st h => ⟨hP st h, hr⟩)
-  have hun : ∀ (st1 : St) (r : Option Nat) (P : St → Prop), (∀ i, r = some i → i < L) → (∀ st, P st → st = st1 ∧ CG cfg s L st) →
-      Tr P (unignoreAll (st1.lookupPath s a.path true) r) (fun r st' => CG cfg s L st' ∧ ∀ i, r = some i → i < L) Inv := by
-    intro st1 r P hr hP
-    apply Tr.with_pre (φ := InvL L st1) (fun st h => (hP st h).1 ▸ (hP st h).2.1)
-    intro hil
-    exact (unignoreAll_tr cfg s L _ r (fun i hi => hil.2 ▸ lookupPath_lt hil.1 s a.path true i hi) hr).pre (fun st h => (hP st h).2)
-  unfold mergePrior
-  apply Tr.getSt_bind; intro st1
-  cases priorEnt with
-  | none =>
-    cases ent with
-    | none => exact hun st1 none _ hent (fun st h => ⟨h.1, h.2.1⟩)
-    | some en => exact hkeep (some en) _ hent (fun st h => h.2.1)
-  | some pe =>
-    have hpel : pe < L := hpe pe rfl
-    have hsome : ∀ i, some pe = some i → i < L := fun i hi => by cases hi; exact hpel
-    by_cases hd : (st1.ent pe).isDiscarded = true
-    · simp only [hd, Bool.not_true, Bool.false_eq_true, if_false]
-      cases ent with
-      | none => exact hun st1 none _ hent (fun st h => ⟨h.1, h.2.1⟩)
-      | some en => exact hkeep (some en) _ hent (fun st h => h.2.1)
-    · simp only [hd, Bool.not_false, if_true]
-      cases ent with
-      | none =>
-        simp only [if_true]
-        exact Tr.bind (R := fun _ => CG cfg s L) (Tr.pure (fun st h => h.2.1)) (fun _ => hkeep (some pe) _ hsome (fun st h => h))
-      | some en =>
-        simp only
-        by_cases hr : ((st1.ent en).isDiscarded ||
-            (!(st1.ent en).isConflicted && (truthyH (st1.side pe s).syncHash || !truthyH (st1.side en s).syncHash))) = true
-        · simp only [hr, if_true]
-          refine Tr.bind (R := fun _ => CG cfg s L) ?_ (fun _ => hkeep (some pe) _ hsome (fun st h => h))
-          by_cases ht : truthyS (st1.side en s.other).oid = true
-          · simp only [ht, if_true]
-            apply Tr.when
-            · intro hc
-              apply Tr.false_pre
-              rintro st ⟨rfl, _, hnc⟩
-              have := hnc pe en rfl rfl
-              simp only [Bool.not_eq_true] at hd
-              simp [hd, hr, ht, hc] at this
-            · exact fun _ st h => h.2.1
-          · simp only [ht, Bool.false_eq_true, if_false]
-            exact Tr.pure (fun st h => h.2.1)
-        · simp only [hr, Bool.false_eq_true, if_false]
-          exact hkeep (some en) _ hent (fun st h => h.2.1)
-
-theorem reusePrior_tr (cfg : Cfg) (s : Sd) (ent : Option Nat) (pe : Nat) (L : Nat) (hent : ∀ i, ent = some i → i < L) (hpe : pe < L)
-    (st0 : St) :
-    Tr (fun st => st = st0 ∧ CG cfg s L st) (reusePrior s ent pe)
-      (fun r st' => CG cfg s L st' ∧ (∀ i, r = some i → i < L) ∧ ((r = ent ∧ st' = st0) ∨ r = some pe)) Inv := by
-  unfold reusePrior
-  apply Tr.getSt_bind; intro st1
-  split
-  · refine Tr.bind (R := fun _ => CG cfg s L) (Tr.modify (fun st h => h.2.2.ignored pe .none)) (fun _ => ?_)
-    exact Tr.pure (fun st h => ⟨h, fun i hi => by cases hi; exact hpe, Or.inr rfl⟩)
-  · exact Tr.pure (fun st h => ⟨h.2.2, hent, Or.inl ⟨rfl, h.2.1⟩⟩)
-
-/-- state.py:1123-1169: the entry the event is applied to exists, and the invariant still holds -/
-theorem chooseEntry_tr (cfg : Cfg) (fuel : Nat) (s : Sd) (ot : OType) (a : UArgs) (prior : Oid) (L : Nat) :
-    Tr (fun st => CG cfg s L st ∧ mergeCopies st s a prior = false) (chooseEntry cfg fuel s ot a prior)
-      (fun e st' => ∃ L', CG cfg s L' st' ∧ e < L') Inv := by
-  unfold chooseEntry
-  apply Tr.getSt_bind; intro st0
-  apply Tr.with_pre (φ := CG cfg s L st0 ∧ mergeCopies st0 s a prior = false) (fun st (h : st = st0 ∧ _) => h.1 ▸ h.2)
-  rintro ⟨hcg0, hmc⟩
-  have hlk : ∀ k i, st0.lookupOid s k = some i → i < L := fun k i h => hcg0.1.2 ▸ hcg0.1.1.1.bnd s k i h
-  simp only
-  refine Tr.bind (R := fun r st' => CG cfg s L st' ∧ ∀ i, r = some i → i < L) ?_ (fun ent => ?_)
-  · by_cases hc : (truthyS prior && prior != a.oid) = true
-    · simp only [hc, if_true]
-      cases hp : st0.lookupOid s prior with
-      | none =>
-        simp only
-        refine Tr.bind (R := fun r st' => CG cfg s L st' ∧ r = st0.lookupOid s a.oid) (Tr.pure (fun st h => ⟨h.2.1, rfl⟩)) (fun ent1 => ?_)
-        apply Tr.with_pre (φ := ent1 = st0.lookupOid s a.oid) (fun st h => h.2)
-        rintro rfl
-        exact (mergePrior_tr cfg fuel s a _ none L (fun i hi => hlk _ i hi) (fun i hi => by cases hi)).pre
-          (fun st h => ⟨h.1, fun pe en hpe _ => by cases hpe⟩)
-      | some pe =>
-        simp only
-        have hpel : pe < L := hlk _ pe hp
-        refine Tr.bind ((reusePrior_tr cfg s (st0.lookupOid s a.oid) pe L (fun i hi => hlk _ i hi) hpel st0).pre
-          (fun st h => ⟨h.1, h.2.1⟩)) (fun ent1 => ?_)
-        apply Tr.with_pre (φ := ∀ i, ent1 = some i → i < L) (fun st h => h.2.1)
-        intro hb1
-        refine (mergePrior_tr cfg fuel s a ent1 (some pe) L hb1 (fun i hi => by cases hi; exact hpel)).pre ?_
-        rintro st ⟨hcg, _, hcase⟩
-        refine ⟨hcg, ?_⟩
-        rintro pe' en hpe' hen
-        cases hpe'
-        rcases hcase with ⟨hr, hst⟩ | hr
-        · -- nothing was revived: the guard speaks about this very state
-          subst hst
-          rw [hr] at hen
-          unfold mergeCopies at hmc
-          rw [hp, hen, hc] at hmc
-          simpa using hmc
-        · -- the prior entry itself was revived: it cannot be copied onto itself
-          rw [hr] at hen; cases hen
-          cases h1 : truthyS (st.side pe s.other).oid <;> simp [h1]
-    · simp only [hc, Bool.false_eq_true, if_false]
-      exact Tr.pure (fun st h => ⟨h.2.1, fun i hi => hlk _ i hi⟩)
-  · cases ent with
-    | some e => exact Tr.pure (fun st h => ⟨L, h.1, h.2 e rfl⟩)
-    | none =>
-      refine (newEntry_tr ot _ Inv).conseq (fun _ h => h) ?_ (fun _ h => h)
-      rintro e st' ⟨st, ⟨hcg, _⟩, rfl, rfl⟩
-      exact ⟨L + 1, ⟨⟨inv_addEntry hcg.1.1 ot, by simp [hcg.1.2]⟩, flatK_addEntry hcg.2 ot⟩, by simp [hcg.1.2]⟩
-
-/-- state.py:1119-1172 `update`: one raw event keeps the invariant -/
-theorem update_tr (cfg : Cfg) (fuel : Nat) (s : Sd) (ot : OType) (a : UArgs) (prior : Oid) (L : Nat) :
-    Tr (fun st => CG cfg s L st ∧ mergeCopies st s a prior = false) (update cfg fuel s ot a prior) (fun _ st' => Inv st') Inv := by
-  unfold update
-  refine Tr.bind (chooseEntry_tr cfg fuel s ot a prior L) (fun e => ?_)
-  apply Tr.exists_pre; intro L'
-  apply Tr.with_pre (φ := e < L') (fun st h => h.2)
-  intro hlt
-  apply Tr.getSt_bind; intro st1
-  exact (updateEntry_tr cfg fuel e s _ L' hlt).pre (fun st h => ⟨h.2.1.1, h.2.1.2 e⟩)
 
 end CS.State
